@@ -189,7 +189,7 @@ Proof. reflexivity. Qed.
 (* what the environment of the relation means on the machine: locals through the frame chain, globals in the
    namespace of the current frame *)
 Definition env_ok (loc glob : string -> option rvalue) (r:rt) (fs:list frame) (ns:string) : Prop :=
-  (forall k w, loc k = Some w -> lookup_frames k fs = Some (cv w)) /\
+  (forall k w, hidden k = false -> loc k = Some w -> lookup_frames k fs = Some (cv w)) /\
   (forall k w, glob k = Some w -> match assoc ns (r_nss r) with Some m => assoc k m | None => None end = Some (cv w)).
 
 Lemma adv_adv c f rest k1 vs1 k2 vs2 :
@@ -298,10 +298,10 @@ Proof.
     cbn [compile_expr app length] in *. eapply run_push; eauto; try (intros; reflexivity).
   - (* string *) intros s r c f rest pre post G EF EC EP B ENV. split; [|discriminate].
     cbn [compile_expr app length] in *. eapply run_push; eauto; try (intros; reflexivity).
-  - (* local variable *) intros n v L HL DV r c f rest pre post G EF EC EP B ENV.
+  - (* local variable *) intros n v L HH HL DV r c f rest pre post G EF EC EP B ENV.
     split; [|apply cv_data_not_nil; exact DV].
     cbn [compile_expr app length] in *. eapply run_push; eauto. intros c1 F1. cbn [exec_instr]. rewrite L. unfold get_variable. rewrite F1.
-    rewrite lookup_frames_set_pos. destruct ENV as [EL _]. rewrite (EL _ _ HL). reflexivity.
+    rewrite lookup_frames_set_pos. destruct ENV as [EL _]. rewrite (EL _ _ HH HL). reflexivity.
   - (* global variable *) intros n v L HL DV r c f rest pre post G EF EC EP B ENV.
     split; [|apply cv_data_not_nil; exact DV].
     cbn [compile_expr app length] in *. eapply run_push; eauto. intros c1 F1. cbn [exec_instr]. rewrite L, F1. unfold ns_get. cbn [f_ns set_pos].
@@ -514,7 +514,7 @@ Proof.
   - intros n. split; [reflexivity|]. intros s [|f] _ L; [cbn in L; lia|reflexivity].
   - intros b. split; [reflexivity|]. intros s [|f] _ L; [cbn in L; lia|reflexivity].
   - intros t. split; [reflexivity|]. intros s [|f] _ L; [cbn in L; lia|reflexivity].
-  - intros n v IL HL DV. split; [exact DV|]. intros s [|f] [EL _] L; [cbn in L; lia|]. cbn [eval]. rewrite IL, <- EL, HL. reflexivity.
+  - intros n v IL HH HL DV. split; [exact DV|]. intros s [|f] [EL _] L; [cbn in L; lia|]. cbn [eval]. rewrite IL, <- EL, HL. reflexivity.
   - intros n v IL HL DV. split; [exact DV|]. intros s [|f] [_ EG] L; [cbn in L; lia|]. cbn [eval]. rewrite IL. unfold rns_get. rewrite <- EG, HL. reflexivity.
   - intros l vs HP [DVS IH]. split; [exact DVS|]. intros s [|f] ENV L; [rewrite esize_arr in L; lia|].
     rewrite esize_arr in L. cbn [eval]. specialize (IH s f [] ENV). rewrite IH by lia. reflexivity.
